@@ -52,18 +52,23 @@ def extract_send_clauses():
             preds = []
             for p in params:
                 if p.startswith("'") or p.startswith('const '): continue
-                if ':' in p:
-                    name, b = p.split(':', 1); preds.append((name.strip(), b))
+                mb = re.match(r'^(.*?[^:]):(?!:)(.*)$', p, re.S)
+                if mb: preds.append((mb.group(1).strip(), mb.group(2)))
                 else: bounds.setdefault(p.strip(), set())
             if where.strip():
                 for p in split_top(where.strip()[len('where'):]):
-                    if ':' in p:
-                        name, b = p.split(':', 1); preds.append((name.strip(), b))
+                    mb = re.match(r'^(.*?[^:]):(?!:)(.*)$', p, re.S)
+                    if mb: preds.append((mb.group(1).strip(), mb.group(2)))
+            for name, _b in preds:
+                # a bound on anything but a plain type parameter (an associated type `I::I`, a concrete type) is outside the clause model
+                if not re.fullmatch(r'[A-Za-z_][A-Za-z0-9_]*', name): problems.append(f'{rel}: bound on `{name}` (not a type parameter) in impl {trait} for {ty}')
             for name, b in preds:
                 for one in split_top(b, '+'):
                     one = one.strip()
                     if not one or one.startswith("'"): continue
-                    base = re.match(r'\??[A-Za-z_][A-Za-z0-9_:]*', one).group(0).split('::')[-1]
+                    mo = re.match(r'\??[A-Za-z_][A-Za-z0-9_:]*', one)
+                    if not mo: problems.append(f'{rel}: unparsable bound `{one}` in impl {trait} for {ty}'); continue
+                    base = mo.group(0).split('::')[-1]
                     if base not in KNOWN_BOUNDS: problems.append(f'{rel}: unrecognised bound `{one}` in impl {trait} for {ty}')
                     bounds.setdefault(name, set()).add(base)
                     im = re.search(r'Item\s*=\s*([A-Za-z_][A-Za-z0-9_]*)', one)
@@ -934,7 +939,8 @@ def main():
     write_splits(sp, spp)
     for x in spp: print('extract_facts: PROBLEM:', x)
     print(f'extract_facts: {len(sp)} split functions')
-    c, p, s = extract_send_clauses()
+    try: c, p, s = extract_send_clauses()
+    except Exception as ex: c, p, s = [], [f'the Send / Sync extractor failed on this source: {type(ex).__name__}: {ex}'], False
     write_send(c, p, s)
     for x in p: print('extract_facts: PROBLEM:', x)
     print(f'extract_facts: {len(c)} Send/Sync clauses')
